@@ -81,7 +81,7 @@ static std::string run_poisson(int poly, int lmin, int seed, long* npts) {
 
 static void explore(Result& R) {
     const bool th = R.args.thorough(); setup(); const int K = th ? 32 : 4; long cases = 0, ok = 0, rej = 0, unit = 0, npts = 0, poisson_nonempty = 0; double worst_v = 0, worst_d = 0;
-    std::string dir = std::string(getenv("VERIF_DIR") ? getenv("VERIF_DIR") : ".") + "/build/run/C13-" + std::to_string(getpid());
+    std::string dir = scratch_base() + "/C13-" + std::to_string(getpid());
     for (int p = 0; p < (int)g_polys.size(); p++) for (int l = 0; l < 4; l++) for (int t = 0; t < 2; t++) for (int k = 0; k < (t ? (l == 3 ? 3 * K : (g_polys[p].name == "cube_12_triangles_all_wound_inward" ? (th ? 3 * K : 6 * K) : K)) : 1); k++) {   /* the inward-wound cube is where the reconstruction most often has several holes to fill: more seeds there */
         if (!g_polys[p].valid && l != 1) continue;
         if (l == 3 && !(g_polys[p].name == "tetrahedron" || g_polys[p].name == "octahedron")) continue; if (l == 3 && !t) continue;
